@@ -1,2 +1,160 @@
+import DuneVerif.Model.C04
 import DuneVerif.Common.Proto
-def main : IO Unit := DV.runDriver fun _ => "bad-op"
+/-!
+line-protocol driver for C04 (format: see harness/mpi_c04.cc)
+
+  c04 <P> <flags> <hints> : seg;seg;...
+
+The driver keeps, for every rank, three index set objects (source, target, unrelated) as sorted pair lists with
+their sequence numbers plus the pending adds/deletes of the harness protocol, and one `RIState`.  `B<ign>` runs
+`RIState.rebuild` with `buildRemoteStd` on the snapshot of all ranks, `S` prints `isSynced`.
+-/
+open DV DV.C04
+
+namespace C04Drv
+
+structure ISet where
+  pairs : List Pair := []
+  seq : Nat := 0
+  adds : List Pair := []      -- pending adds (in op-line order)
+  dels : List Int := []       -- pending deletes
+  deriving Inhabited
+
+structure RankSt where
+  obj : Array ISet := #[{}, {}, {}]
+  two : Bool := false
+  incl : Bool := false
+  hints : List Nat := []
+  ri : RIState := {}
+  out : List String := []     -- observations, reversed
+  deriving Inhabited
+
+/-- insert into a list sorted by (global, attribute) — the order `ParallelIndexSet::endResize` establishes -/
+def insertPair (x : Pair) : List Pair → List Pair
+  | [] => [x]
+  | y :: ys => if x.g < y.g ∨ (x.g = y.g ∧ x.a < y.a) then x :: y :: ys else y :: insertPair x ys
+
+/-- the harness protocol's resize: (old \ deleted) + the adds whose (global, attribute) is new -/
+def applyResize (s : ISet) : ISet :=
+  let kept := s.pairs.filter (fun p => !s.dels.contains p.g)
+  let res := s.adds.foldl (fun acc e => if acc.any (fun p => p.g == e.g && p.a == e.a) then acc else insertPair e acc) kept
+  { pairs := res, seq := s.seq + 1, adds := [], dels := [] }
+
+def showIdx (x : RIdx) : String :=
+  "(" ++ toString x.loc.g ++ "," ++ toString x.ra ++ "," ++ toString x.loc.l ++ "," ++ toString x.loc.a ++ ")"
+def showIdxs (l : List RIdx) : String := "[" ++ ",".intercalate (l.map showIdx) ++ "]"
+def showMap (m : RMap) : String :=
+  "b" ++ " ".intercalate (m.map fun e => toString e.1 ++ ":" ++ showIdxs e.2.1 ++ "|" ++ showIdxs e.2.2)
+
+def getObj (r : RankSt) (i : Nat) : ISet := r.obj.getD i {}
+
+/-- index of the object that is rank r's source (0) / target (1, or 0 for one index set) / unrelated (2) set -/
+def objOf (r : RankSt) (s : Nat) : Nat := if s == 1 && !r.two then 0 else s
+
+def snapshot (rs : Array RankSt) : System :=
+  { P := rs.size,
+    rank := fun p =>
+      let r := rs.getD p {}
+      { src := (getObj r 0).pairs, tgt := (getObj r 1).pairs, two := r.two, incl := r.incl, hints := r.hints } }
+
+def parseNats? (ws : List String) : Option (List Nat) := ws.mapM (·.toNat?)
+
+def step (rs : Array RankSt) (seg : String) : Option (Array RankSt) :=
+  match seg.toList with
+  | [] => some rs
+  | kind :: restc =>
+    let rest := String.ofList restc
+    if kind == 'a' || kind == 'd' then
+      let f := rest.splitOn ","
+      match f with
+      | s :: r :: g :: more =>
+        match s.toNat?, r.toNat?, g.toInt? with
+        | some s, some r, some g =>
+          if s > 1 || r ≥ rs.size then none else
+          let st := rs.getD r {}
+          if kind == 'a' then
+            match more with
+            | [l, a, pb] =>
+              match l.toNat?, a.toNat? with
+              | some l, some a =>
+                if a > 3 then none else
+                if s == 1 && !st.two then some rs else
+                let o := getObj st s
+                let o' := { o with adds := o.adds ++ [{ g := g, l := l, a := a, pub := pb == "1" }] }
+                some (rs.setIfInBounds r { st with obj := st.obj.setIfInBounds s o' })
+              | _, _ => none
+            | _ => none
+          else
+            match more with
+            | [] =>
+              if s == 1 && !st.two then some rs else
+              let o := getObj st s
+              let o' := { o with adds := o.adds.filter (fun e => e.g != g), dels := g :: o.dels }
+              some (rs.setIfInBounds r { st with obj := st.obj.setIfInBounds s o' })
+            | _ => none
+        | _, _, _ => none
+      | _ => none
+    else if kind == 'R' then
+      match rest.toNat? with
+      | some s =>
+        if s > 2 || rest.length != 1 then none else
+        some (rs.map fun st =>
+          let i := objOf st s
+          { st with obj := st.obj.setIfInBounds i (applyResize (getObj st i)) })
+      | none => none
+    else if kind == 'S' then
+      if rest != "" then none else
+      some (rs.map fun st =>
+        let sy := st.ri.isSynced (getObj st 0).seq (getObj st (objOf st 1)).seq
+        { st with out := (if sy then "s1" else "s0") :: st.out })
+    else if kind == 'B' then
+      if rest != "0" && rest != "1" then none else
+      let ign := rest == "1"
+      let sys := snapshot rs
+      some (rs.mapIdx fun p st =>
+        let ri' := st.ri.rebuild ign (getObj st 0).seq (getObj st (objOf st 1)).seq (fun _ => buildRemoteStd ign sys p)
+        { st with ri := ri', out := showMap ri'.remote :: st.out })
+    else none
+
+def parseHints (P : Nat) (h : String) : Option (List Nat) :=
+  if h == "-" then some [] else
+  match parseNats? (h.splitOn ",") with
+  | some l => if l.all (· < P) then some l else none
+  | none => none
+
+def handle (line : String) : String :=
+  let parts := line.splitOn " : "
+  let head := parts.headD ""
+  let body := " : ".intercalate (parts.drop 1)
+  match tokens head with
+  | ["c04", ps, flags, hints] =>
+    match ps.toNat? with
+    | none => "bad-op"
+    | some P =>
+      let fl := flags.toList
+      let hs := hints.splitOn "/"
+      if P == 0 || fl.length != P || hs.length != P then "bad-op" else
+      match hs.mapM (parseHints P) with
+      | none => "bad-op"
+      | some hl =>
+        if !fl.all (fun c => '0' ≤ c && c ≤ '3') then "bad-op" else
+        let init : Array RankSt := (List.range P).toArray.map fun r =>
+          let f := (fl.getD r '0').toNat - '0'.toNat
+          { two := f % 2 == 1, incl := f / 2 == 1, hints := hl.getD r [] }
+        -- the same sanity rules as the harness: ring and neighbour mode are not mixed, hints are symmetric
+        let ringOf (r : Nat) : Bool := (nbIds { hints := hl.getD r [] } r).isEmpty
+        let okMode := (List.range P).all fun r => ringOf r == ringOf 0
+        let okSym := (List.range P).all fun r => ringOf r ||
+          (hl.getD r []).all fun q => q == r || (hl.getD q []).contains r
+        if !okMode || !okSym then "bad-op" else
+        let segs := (String.ofList (body.toList.filter (· != ' '))).splitOn ";"
+        match segs.foldlM step init with
+        | none => "bad-op"
+        | some fin =>
+          " ".intercalate ((List.range P).map fun r =>
+            "r" ++ toString r ++ "{" ++ ";".intercalate ((fin.getD r {}).out.reverse) ++ "}")
+  | _ => "bad-op"
+
+end C04Drv
+
+def main : IO Unit := DV.runDriver C04Drv.handle
